@@ -156,28 +156,32 @@ Record part := mkPart {
   p_unread : list bytes;       (* deque: append at the end, popleft at the head *)
   p_prev : option bytes;
   p_content_eof : N;
-  p_max : N }.                 (* client_max_size *)
+  p_max : N;
+  p_prev_crlf : bool }.        (* readline: the previous line ended with CRLF *)                 (* client_max_size *)
 
 Definition p_blen (p : part) : N := boundary_len_formula (lenN (p_boundary p)).
 
 Definition new_part (boundary : bytes) (length : option N) (b64 : bool) (max : N) : part :=
-  mkPart boundary length b64 false 0 [] [] None 0 max.
+  mkPart boundary length b64 false 0 [] [] None 0 max true.
 
 Definition p_set_eof (p : part) : part :=
   mkPart (p_boundary p) (p_length p) (p_b64 p) true (p_read_bytes p) (p_carry p) (p_unread p) (p_prev p)
-         (p_content_eof p) (p_max p).
+         (p_content_eof p) (p_max p) (p_prev_crlf p).
 Definition p_set_carry (c : bytes) (p : part) : part :=
   mkPart (p_boundary p) (p_length p) (p_b64 p) (p_at_eof p) (p_read_bytes p) c (p_unread p) (p_prev p)
-         (p_content_eof p) (p_max p).
+         (p_content_eof p) (p_max p) (p_prev_crlf p).
 Definition p_add_read (n : N) (p : part) : part :=
   mkPart (p_boundary p) (p_length p) (p_b64 p) (p_at_eof p) (p_read_bytes p + n) (p_carry p) (p_unread p)
-         (p_prev p) (p_content_eof p) (p_max p).
+         (p_prev p) (p_content_eof p) (p_max p) (p_prev_crlf p).
 Definition p_set_unread (u : list bytes) (p : part) : part :=
   mkPart (p_boundary p) (p_length p) (p_b64 p) (p_at_eof p) (p_read_bytes p) (p_carry p) u (p_prev p)
-         (p_content_eof p) (p_max p).
+         (p_content_eof p) (p_max p) (p_prev_crlf p).
+Definition p_set_line (ceof : N) (crlf : bool) (p : part) : part :=
+  mkPart (p_boundary p) (p_length p) (p_b64 p) (p_at_eof p) (p_read_bytes p) (p_carry p) (p_unread p) (p_prev p)
+         ceof (p_max p) crlf.
 Definition p_set_window (prev : bytes) (ceof : N) (ateof : bool) (p : part) : part :=
   mkPart (p_boundary p) (p_length p) (p_b64 p) (ateof || p_at_eof p) (p_read_bytes p) (p_carry p) (p_unread p)
-         (Some prev) ceof (p_max p).
+         (Some prev) ceof (p_max p) (p_prev_crlf p).
 
 Fixpoint find_at (sub w : bytes) (i : N) : option N :=
   if starts_with sub w then Some i
@@ -253,13 +257,15 @@ Definition align_base64 (chunk : bytes) (size : N) (p : part) : bytes * part :=
   let remainder := count_b64 chunk mod 4 in
   if (remainder =? 0) || at_end then (chunk, p) else
   let cut := lenN chunk - walk_back (rev chunk) remainder 0 in
-  if cut =? 0 then (chunk, p)
+  if cut =? 0 then
+    (* no whole quartet: after a short read keep the lot for the next call, else hand the chunk back as it is *)
+    if lenN chunk <? size then ([], p_set_carry (chunk ++ p_carry p) p) else (chunk, p)
   else (takeb cut chunk, p_set_carry (dropb cut chunk ++ p_carry p) p).
 
 Definition length_reached (p : part) : bool :=
   match p_length p with Some l => p_read_bytes p =? l | None => false end.
 
-Definition read_chunk (size : N) (p : part) (s : stream) : res (bytes * part * stream) :=
+Definition read_chunk_once (size : N) (p : part) (s : stream) : res (bytes * part * stream) :=
   if p_at_eof p then Ok ([], p, s) else
   let carry := p_carry p in
   let want := if is_nil carry then size else N.max (size - lenN carry) (p_blen p) in
@@ -282,6 +288,22 @@ Definition read_chunk (size : N) (p : part) (s : stream) : res (bytes * part * s
       end
     else Ok (chunk2, p4, s1)
   end.
+
+(* `if not chunk and self._b64_carry and not self._at_eof: return await self.read_chunk(size)` *)
+Definition retry (d : bytes) (p : part) : bool := is_nil d && negb (is_nil (p_carry p)) && negb (p_at_eof p).
+Fixpoint read_chunk_n (n : nat) (size : N) (p : part) (s : stream) : res (bytes * part * stream) :=
+  match read_chunk_once size p s with
+  | Err e => Err e
+  | Ok (d, p', s') =>
+    if retry d p' then match n with O => Err EFuel | S n' => read_chunk_n n' size p' s' end
+    else Ok (d, p', s')
+  end.
+(* a bound on the number of re-reads (each one strictly decreases the measure of Proofs/MultipartTerm.v) *)
+Definition chunk_budget (p : part) (s : stream) : nat :=
+  S (N.to_nat (4 * (2 * s_total s + match p_prev p with Some v => lenN v | None => 0 end) + 3)).
+(* BodyPartReader.read_chunk(size) *)
+Definition read_chunk (size : N) (p : part) (s : stream) : res (bytes * part * stream) :=
+  read_chunk_n (chunk_budget p s) size p s.
 
 (* BodyPartReader.read(): `while not at_eof: data += read_chunk(chunk_size); if len(data) > max: raise` *)
 Fixpoint read_loop (fuel : nat) (acc : bytes) (p : part) (s : stream) : res (bytes * part * stream) :=
@@ -335,6 +357,7 @@ Definition rstrip_ws := rstrip_with is_space_byte.    (* bytes.rstrip() *)
 Definition drop_last2 (l : bytes) : bytes := takeb (lenN l - 2) l.      (* line[:-2] *)
 
 (* BodyPartReader.readline() *)
+Definition ends_crlf (l : bytes) : bool := list_eqb (dropb (lenN l - 2) l) CRLF.
 Definition part_readline (p : part) (s : stream) : res (bytes * part * stream) :=
   if p_at_eof p then Ok ([], p, s) else
   let r1 := match p_unread p with
@@ -347,18 +370,24 @@ Definition part_readline (p : part) (s : stream) : res (bytes * part * stream) :
   match r1 with
   | Err e => Err e
   | Ok (line, p1, s1) =>
+    (* the stream ended before the closing boundary: count, and refuse the third time *)
+    let ceof := if is_nil line && s_at_eof s1 then p_content_eof p1 + 1 else p_content_eof p1 in
+    if is_nil line && s_at_eof s1 && content_eof_exceeded ceof then Err EValue else
+    let after_crlf := p_prev_crlf p1 in
+    let crlf := ends_crlf line in
+    let p2 := p_set_line ceof crlf p1 in
     let b := p_boundary p in
-    if starts_with b line then
+    if after_crlf && starts_with b line then
       let sline := rstrip_crlf line in
       if list_eqb sline b || list_eqb sline (b ++ [45; 45])
-      then Ok ([], p_set_unread (p_unread p1 ++ [line]) (p_set_eof p1), s1)
-      else Ok (line, p1, s1)
+      then Ok ([], p_set_unread (p_unread p2 ++ [line]) (p_set_eof p2), s1)
+      else Ok (line, p2, s1)
     else
       match s_readline 0 s1 with
       | (None, _) => Err ELineTooLong
       | (Some nl, s2) =>
-        let line' := if starts_with b nl then drop_last2 line else line in
-        Ok (line', p_set_unread (p_unread p1 ++ [nl]) p1, s2)
+        let line' := if crlf && starts_with b nl then drop_last2 line else line in
+        Ok (line', p_set_unread (p_unread p2 ++ [nl]) p2, s2)
       end
   end.
 
@@ -466,6 +495,20 @@ Definition r_readline (r : reader) (s : stream) : res (bytes * reader * stream) 
           end
   end.
 
+(* _read_closing_boundary_tail: what follows a closing boundary belongs to the parent *)
+Definition closing_tail (r1 : reader) (s1 : stream) : res (reader * stream) :=
+  match r_readline r1 s1 with
+  | Err e => Err e
+  | Ok (epilogue, r2, s2) =>
+    match r_readline r2 s2 with
+    | Err e => Err e
+    | Ok (next_line, r3, s3) =>
+      let u := if list_eqb (takeb 2 next_line) [45; 45] then next_line :: r_unread r3
+               else epilogue :: next_line :: r_unread r3 in
+      Ok (r_upd r3 true (r_at_bof r3) u, s3)
+    end
+  end.
+
 Fixpoint read_until_first_boundary (fuel : nat) (r : reader) (s : stream) : res (reader * stream) :=
   match fuel with
   | O => Err EFuel
@@ -476,7 +519,7 @@ Fixpoint read_until_first_boundary (fuel : nat) (r : reader) (s : stream) : res 
       if is_nil chunk then Err EValue else
       let c := rstrip_ws chunk in
       if list_eqb c (r_boundary r) then Ok (r1, s1)
-      else if list_eqb c (r_boundary r ++ [45; 45]) then Ok (r_upd r1 true (r_at_bof r1) (r_unread r1), s1)
+      else if list_eqb c (r_boundary r ++ [45; 45]) then closing_tail r1 s1
       else read_until_first_boundary f r1 s1
     end
   end.
@@ -487,18 +530,7 @@ Definition read_boundary (r : reader) (s : stream) : res (reader * stream) :=
   | Ok (chunk, r1, s1) =>
     let c := rstrip_ws chunk in
     if list_eqb c (r_boundary r) then Ok (r1, s1)
-    else if list_eqb c (r_boundary r ++ [45; 45]) then
-      match r_readline r1 s1 with
-      | Err e => Err e
-      | Ok (epilogue, r2, s2) =>
-        match r_readline r2 s2 with
-        | Err e => Err e
-        | Ok (next_line, r3, s3) =>
-          let u := if list_eqb (takeb 2 next_line) [45; 45] then next_line :: r_unread r3
-                   else epilogue :: next_line :: r_unread r3 in
-          Ok (r_upd r3 true (r_at_bof r3) u, s3)
-        end
-      end
+    else if list_eqb c (r_boundary r ++ [45; 45]) then closing_tail r1 s1
     else Err EValue
   end.
 
